@@ -179,7 +179,7 @@ def _verify(sig_type, pub, signed, sig):
 
 # ---- deviations --------------------------------------------------------------------------------------------------------------
 DEVIATIONS = ['none', 'bad-name', 'forged-sig', 'substituted-key', 'kl-elsewhere', 'missing-cert', 'nack-cert', 'unsigned',
-              'digest-only', 'loop', 'wrong-signer-level', 'wrong-id', 'hmac-with-public-key']
+              'digest-only', 'loop', 'wrong-signer-level', 'wrong-id', 'hmac-with-public-key', 'kl-wrong-digest', 'cert-as-packet']
 
 
 def build_packets(h, spec, store, policy):
@@ -203,6 +203,24 @@ def build_packets(h, spec, store, policy):
         c = h.certs[d]
         nm_ = [comp('site'), comp('data'), comp(who), comp('d1')]
         out.append((dev, nm_, bytes(make_data(nm_, MetaInfo(), b'x', HmacSha256Signer(c['name'], K.KEYS[c['key']]['pub'])))))
+    elif dev == 'kl-wrong-digest':
+        # the key locator names the right certificate plus an implicit digest that is NOT the digest of that certificate: no
+        # such packet can be retrieved, so the chain is not valid
+        c = h.certs[d]
+        out.append((dev, *h.data_packet(who, 1, kl=c['name'] + [T.enc_tlv(1, b'\x5a' * 32)])))
+    elif dev == 'cert-as-packet':
+        # certificates are Data packets and may be validated like any other: the genuine one of each level, and a forged copy
+        # (same name, content and signature made with another key) - also AFTER the genuine one went through the validator
+        lvl = max(1, min(link if link else 1, d)) if d >= 1 else 0
+        if lvl >= 1:
+            c = h.certs[lvl]
+            out.append(('cert-genuine-as-packet', c['name'], c['wire']))
+            other = next((k for k in KEYPOOL if K.KEYS[k]['kind'] == K.KEYS[c['key']]['kind'] and k != c['key']), None)
+            if other:
+                dd = P.strict_data(c['wire'])
+                kl_ = dd['sig_info']['key_locator']['name']
+                forged = _raw_cert(c['name'], K.KEYS[other]['pub'], _signer(other, kl_))
+                out.append(('cert-forged-as-packet', c['name'], forged))
     elif dev == 'wrong-id' and spec['shared']:
         out.append((dev, *h.data_packet('mallory', 1)))
     elif dev == 'wrong-signer-level' and d >= 2:
